@@ -723,6 +723,11 @@ func run(t *T) {
 			return res
 		}
 		writeAndCheck(f, true, []int{0, 1, 2}, describeNoID(f), "gen/created", map[string]any{"generator": tag}, res, nil)
+		// entries that carry more addenda kinds than their category needs (validation admits them): a correction
+		// together with its refusal, a return that keeps its payment addenda.  Every record written must be counted.
+		if g := extraAddenda(f); g != nil {
+			writeAndCheck(g, true, []int{0}, describeNoID(g)+"+extra-addenda", "gen/created/extra-addenda", map[string]any{"generator": tag, "note": "a second addenda kind was attached to some entries, then Create"}, res, nil)
+		}
 		return res
 	}))
 
@@ -959,6 +964,48 @@ type slot struct {
 
 // unvalidated says whether a record that was written does not pass its own
 // Validate, or its batch does not: File.Validate (run by the Writer) never looked at it.
+// extraAddenda attaches, to the entries of f, a second addenda kind their batch type admits next to the one they
+// have (COR: Addenda98 + Addenda98Refused; CTX returns: Addenda99 + Addenda05) and re-creates the file; nil when
+// nothing could be attached or the result does not validate.
+func extraAddenda(f *ach.File) *ach.File {
+	changed := false
+	for _, b := range f.Batches {
+		h := b.GetHeader()
+		if h == nil {
+			continue
+		}
+		for _, e := range b.GetEntries() {
+			switch {
+			case h.StandardEntryClassCode == ach.COR && e.Addenda98 != nil && e.Addenda98Refused == nil:
+				r := ach.NewAddenda98Refused()
+				r.RefusedChangeCode = "C62"
+				r.OriginalTrace = e.Addenda98.OriginalTrace
+				r.OriginalDFI = e.Addenda98.OriginalDFI
+				r.CorrectedData = e.Addenda98.CorrectedData
+				r.ChangeCode = e.Addenda98.ChangeCode
+				r.TraceSequenceNumber = "0000001"
+				r.TraceNumber = e.Addenda98.TraceNumber
+				e.Addenda98Refused = r
+				changed = true
+			case h.StandardEntryClassCode == ach.CTX && e.Addenda99 != nil && len(e.Addenda05) == 0:
+				a := ach.NewAddenda05()
+				a.PaymentRelatedInformation = "RETURNED REMITTANCE"
+				a.SequenceNumber = 1
+				a.EntryDetailSequenceNumber = 1
+				e.AddAddenda05(a)
+				changed = true
+			}
+		}
+	}
+	if !changed {
+		return nil
+	}
+	if recreate(f) != nil || f.Validate() != nil {
+		return nil
+	}
+	return f
+}
+
 func unvalidated(r rec) bool {
 	if v, ok := r.v.(interface{ Validate() error }); ok && safeValidate(v) != nil {
 		return true
